@@ -104,14 +104,17 @@ def doP (b : Blk) (w : Array String) : List String :=
     let row := Row.pp u
     let fails := row.fails b.env (if b.iterations < 1 then 1 else b.iterations)
     let chk := row.check b.env
-    let fin : Final Float := { moles := moles, d := (iap - lk) - si, initial := initial, dissolveOnly := dis, precipOnly := prec }
+    -- the PROPERTY is judged with the restriction and target of the assemblage definition (component), not the unknown's copy
+    let disDef := if w.getD ci "" == "C" then compDis else dis
+    let siDef := if pc > 0.0 then si else fx (w.getD 21 "")
+    let fin : Final Float := { moles := moles, d := (iap - lk) - siDef, initial := initial, dissolveOnly := disDef, precipOnly := prec }
     let valid := validPhaseB epsSI fin
     [copyLine, vline b "T" "pp-f" name (close 1e-13 1e-11 f fM) f fM,
      vline b "T" "pp-iap" name (close 1e-13 1e-11 iap iapM) iap iapM,
      vline b "T" "pp-resid" name (close 1e-14 1e-300 resid (f * (LOG_10 : Float))) resid (f * (LOG_10 : Float)),
      vline b "T" "pp-gate" name (!fails && !chk.1 && !chk.2) (b2f fails) (b2f chk.1 + 2 * b2f chk.2),
-     vline b "V" (if addf then "valid-alt" else if dis then "valid-dissolve" else if prec then "valid-precip" else
-        if force then "valid-force" else "valid") name valid moles ((iap - lk) - si)]
+     vline b "V" (if addf then "valid-alt" else if disDef then "valid-dissolve" else if prec then "valid-precip" else
+        if force then "valid-force" else "valid") name valid moles ((iap - lk) - siDef)]
 
 def doQ (w : Array String) : QLine :=
   let ntok := nat (w.getD 19 "0")
